@@ -29,17 +29,21 @@ type Environment struct {
 	function  *Function
 	registers [NumRegisters]int64
 	numReg    int
+	// funcGen counts (for the whole tree of environments, shared from the root) how many times a binding that
+	// held a function was overwritten or deleted. Reading a function valued outer variable isn't a cache miss
+	// (or no function calling another could be cached) so instead the cache is dropped when one changes.
+	funcGen *int64
 }
 
 // Truly empty store suitable for macros storage.
 func NewMacroEnvironment() *Environment {
-	return &Environment{store: make(map[string]Object)}
+	return &Environment{store: make(map[string]Object), funcGen: new(int64)}
 }
 
 // NewRootEnvironment contains the identifiers pre-seeded by extensions.
 func NewRootEnvironment() *Environment {
 	s := initialIdentifiersCopy()
-	return &Environment{store: s}
+	return &Environment{store: s, funcGen: new(int64)}
 }
 
 func (e *Environment) Len() int {
@@ -285,7 +289,8 @@ func (e *Environment) Delete(name string) Object {
 	if e.depth == 0 {
 		e.numSet++
 	}
-	if _, ok := e.store[name]; ok {
+	if old, ok := e.store[name]; ok {
+		e.functionChanged(old)
 		delete(e.store, name)
 		log.Debugf("Delete(%s) found at %d %v", name, e.depth, e.cacheKey)
 		return TRUE
@@ -294,6 +299,28 @@ func (e *Environment) Delete(name string) Object {
 		return e.outer.Delete(name)
 	}
 	return FALSE
+}
+
+// functionChanged is called with the previous value of a binding about to be overwritten or deleted. When that
+// is a function, the results remembered for its callers (which read it without a miss, see makeRef and Get)
+// are stale from now on: the call doing the change can't be cached and FunctionGeneration changes.
+func (e *Environment) functionChanged(old Object) {
+	if old == nil || old.Type() != FUNC {
+		return
+	}
+	e.getMiss++
+	if e.funcGen != nil {
+		*e.funcGen++
+	}
+}
+
+// FunctionGeneration changes each time a function valued variable is changed or deleted anywhere
+// in the tree of environments this one belongs to: function results cached before are not valid after.
+func (e *Environment) FunctionGeneration() int64 {
+	if e.funcGen == nil {
+		return 0
+	}
+	return *e.funcGen
 }
 
 // TriggerNoCache is used prevent this call stack from caching.
@@ -363,11 +390,13 @@ func (e *Environment) update(name string, found, val Object) Object {
 		log.Debugf("Not setting %q to a reference %q", name, vref.Name)
 		val = Value(val)
 	}
+	writer := e
 	if rr, ok := found.(Reference); ok {
 		log.Debugf("SetNoChecks(%s) updating ref %s in %d", name, rr.Name, rr.RefEnv.depth)
 		e = rr.RefEnv
 		name = rr.Name
 	}
+	writer.functionChanged(e.store[name])
 	e.store[name] = val
 	if e.depth == 0 {
 		e.numSet++
@@ -389,6 +418,7 @@ func (e *Environment) SetNoChecks(name string, val Object, create bool) Object {
 	// New name... let's see if it's really new or making it a ref.
 	if ref, ok := e.makeRef(name); ok {
 		log.Debugf("SetNoChecks(%s) created ref %s in %d", name, ref.Name, ref.RefEnv.depth)
+		e.functionChanged(ref.RefEnv.store[ref.Name])
 		ref.RefEnv.store[ref.Name] = Value(val) // kinda neat to make aliases but it can create loops, so not for now.
 		return val
 	}
@@ -480,6 +510,7 @@ func NewFunctionEnvironment(fn Function, current *Environment) (*Environment, bo
 		cacheKey: fn.CacheKey,
 		depth:    parent.depth + 1,
 		function: &fn,
+		funcGen:  parent.funcGen,
 	}
 	return env, sameFunction
 }
